@@ -41,7 +41,10 @@ RULE = ("a case is a history of 2-8 library calls (placers incl. rand/sa with a 
         "routing_tree_to_tables, three minimisers, bit-field definitions, machine controllers on the simulated network) "
         "with differing arguments, followed by a probe call whose result is compared with the same call made first in a "
         "fresh interpreter; non-trivial = the history contains a call of the same function as the probe with different "
-        "arguments; distinct = distinct (history, probe) specs")
+        "arguments; half of the histories are made of TWINS of the probe's problem (equal in everything but one of: dead "
+        "links, one dead chip, resource exceptions, net weights, one constraint, one vertex's resources, wrap-around "
+        "links), bit-field tags are also passed as the caller's own sets/lists shared between two bit fields; "
+        "distinct = distinct (history, probe) specs")
 
 
 def mutable_defaults():
@@ -118,18 +121,27 @@ def run(ctx):
         ctx.tag("inventory_" + e[4])
     ctx.extra["inventory"] = [e[:5] for e in inv]
     rng = ctx.rng
-    n = ctx.scale(40, 700)
+    n = ctx.scale(100, 1000)
     if ctx.extended:
-        n *= 3
+        n *= 4
     defaults = mutable_defaults()
     ctx.extra["mutable_defaults_watched"] = len(defaults)
     histories = []
     for _ in range(n):
         probe = {"fn": rng.choice(c17_calls.FNS), "seed": rng.randrange(10 ** 6)}
+        twins = rng.random() < 0.5
+        if twins and rng.random() < 0.5:
+            probe["vary"] = rng.randrange(70)
         hist = []
         for _ in range(rng.randrange(2, 9)):
             fn = probe["fn"] if rng.random() < 0.4 else rng.choice(c17_calls.FNS)
-            hist.append({"fn": fn, "seed": rng.randrange(10 ** 6)})
+            h = {"fn": fn, "seed": rng.randrange(10 ** 6)}
+            if twins and rng.random() < 0.7:
+                # a TWIN of the probe's problem: equal in everything but one aspect
+                h["seed"] = probe["seed"]
+                if rng.random() < 0.85:
+                    h["vary"] = rng.randrange(70)
+            hist.append(h)
         histories.append((hist, probe))
     with concurrent.futures.ThreadPoolExecutor(max_workers=12) as ex:
         fresh = list(ex.map(fresh_probe, [p for _, p in histories]))
